@@ -51,6 +51,7 @@ void harness(void)
 	verif_req_chunk = malloc(sizeof(struct qb_ipc_request_header));
 	ASSUME(verif_req_chunk != NULL);
 	int fc0 = c->fc_enabled;
+	int32_t n0 = c->outstanding_notifiers;
 
 	int32_t rc = qb_ipcs_dispatch_connection_request(7, nd_revents, c);
 
@@ -74,6 +75,13 @@ void harness(void)
 		POST(rc != 0 && taken == 0, "a hung-up or invalid descriptor ends the connection without touching the queue");
 	}
 #if V_SHM
+	if ((nd_revents & POLLOUT) && (nd_revents & (POLLNVAL | POLLHUP)) == 0 && n0 > 0) {
+		COVER(fc0 != 0 && verif_ussend_total == n0);
+		POST(verif_ussend_calls >= 1 && verif_ussend_len == (size_t)n0, "a writable setup socket flushes the deferred notifications, also while flow control is on");
+		if (verif_watch_freed == 0) {
+			POST(verif_ussend_total + c->outstanding_notifiers == (long)n0, "flushing writes each deferred notification exactly once");
+		}
+	}
 	POST(verif_usrecv_calls <= 1, "the notification bytes are removed in one read");
 	if (rc == 0 && verif_watch_freed == 0) {
 		if (taken > 0) {
